@@ -281,6 +281,24 @@ where
     }
 }
 
+/// Read-only access to private items for the verification harness.
+#[cfg(coupe_verif)]
+pub mod verif_cartesian {
+    pub use super::rcb::verif::*;
+
+    pub fn position_of<const D: usize>(grid: super::Grid<D>, i: usize) -> [usize; D] {
+        grid.position_of(i)
+    }
+
+    pub fn index_of<const D: usize>(grid: super::Grid<D>, pos: [usize; D]) -> usize {
+        grid.index_of(pos)
+    }
+
+    pub fn len<const D: usize>(grid: super::Grid<D>) -> usize {
+        grid.len()
+    }
+}
+
 #[cfg(test)]
 mod tests {
     use super::*;
